@@ -864,11 +864,14 @@ func (c *Client) traces(ctx context.Context, url string, bm blockmap, start, lim
 		if !ok {
 			return fmt.Errorf("missing block in block map")
 		}
+		// The block may come from the cache and be shared with
+		// other callers: attach under the block lock (as logs does).
+		block.Lock()
 		block.Header.Hash.Write(res.Result[0].BlockHash)
 
 		var tracesByTx = map[key][]traceBlockResult{}
 		for i := range res.Result {
-			k := key{block.Num(), uint64(res.Result[i].TxIdx)}
+			k := key{uint64(block.Header.Number), uint64(res.Result[i].TxIdx)}
 			if traces, ok := tracesByTx[k]; ok {
 				tracesByTx[k] = append(traces, res.Result[i])
 				continue
@@ -885,6 +888,7 @@ func (c *Client) traces(ctx context.Context, url string, bm blockmap, start, lim
 				tx.TraceActions[i] = ta
 			}
 		}
+		block.Unlock()
 	}
 	slog.DebugContext(ctx, "http-get-traces", "elapsed", time.Since(t0))
 	return nil
